@@ -92,6 +92,10 @@ class Ctx:
     def rng(self, i, salt=""):
         return random.Random(f"{self.seed}/{self.prop}/{self.shard}/{i}/{salt}")
 
+    def rng_key(self, i, salt=""):
+        """the seed string of rng(i): enough to regenerate a generated case"""
+        return f"{self.seed}/{self.prop}/{self.shard}/{i}/{salt}"
+
     # -- bookkeeping
     def count(self, name, n=1):
         self.counters[name] = self.counters.get(name, 0) + n
